@@ -97,20 +97,18 @@ class Jacobi(da.Solver):
         #   )
         # To reduce computations, the expression is mildly optimized.
 
-        # Precompute constant expressions
-        if not hasattr(self, "const_diag"):
-            self.const_diag = self._diag(h)
-        if not hasattr(self, "const_diag_scaled"):
-            self.const_diag_scaled = np.divide(
-                self.const_diag, self.diffusion_coeff / h**2
-            )
-        rhs_scaled = np.divide(rhs, self.const_diag)
+        # Precompute expressions which are constant throughout the iteration. NOTE: These
+        # depend on the mesh diameter and the coefficients, which may change between
+        # calls (cf. update_params). Thus, they must not be cached across calls.
+        const_diag = self._diag(h)
+        const_diag_scaled = np.divide(const_diag, self.diffusion_coeff / h**2)
+        rhs_scaled = np.divide(rhs, const_diag)
 
         # Split the tolerance based part to avoid unnecessary boolean evaluation
         if self.tol is None:
             for _ in range(self.maxiter):
                 x = rhs_scaled + np.divide(
-                    self._neighbor_accumulation(x), self.const_diag_scaled
+                    self._neighbor_accumulation(x), const_diag_scaled
                 )
                 if self.verbose:
                     print(f"Jacobi iteration {_} of {self.maxiter} completed.")
@@ -118,7 +116,7 @@ class Jacobi(da.Solver):
         else:
             for _ in range(self.maxiter):
                 x_new = rhs_scaled + np.divide(
-                    self._neighbor_accumulation(x), self.const_diag_scaled
+                    self._neighbor_accumulation(x), const_diag_scaled
                 )
                 err = np.linalg.norm(x_new - x) / np.linalg.norm(x0)
                 if err < self.tol:
